@@ -1579,6 +1579,7 @@ func (rd *c10Round) judge(forced [][3]*c10CReq, bursts [][]*c10CReq, final []*c1
 		}
 	}
 
+	lostSess := map[int]bool{} // sessions already refuted by the direct first-use oracle
 	for _, b := range bursts {
 		n := len(b) - 1
 		v := b[n]
@@ -1598,6 +1599,7 @@ func (rd *c10Round) judge(forced [][3]*c10CReq, bursts [][]*c10CReq, final []*c1
 			}
 		}
 		if complete && len(lost) > 0 {
+			lostSess[v.sess] = true
 			rd.violate("first-use-jar-lost", fmt.Sprintf("%d overlapping first requests bearing the new session ID %s each set one cookie; a later request of that session reached the backend without %d of them (%s ...): Cookie header %q", n, rd.sessIDs[v.sess], len(lost), lost[0], v.saw), nil)
 		}
 	}
@@ -1652,6 +1654,11 @@ func (rd *c10Round) judge(forced [][3]*c10CReq, bursts [][]*c10CReq, final []*c1
 	deadline := time.Now().Add(60 * time.Second)
 	res.PorcVerdict = "ok"
 	for _, k := range keys {
+		if lostSess[k.sess] {
+			// already refuted above; a refuted history with 40 overlapping reads per register is
+			// also the exponential case for the checker
+			continue
+		}
 		hist := parts[k]
 		res.PorcOps += len(hist)
 		res.PorcPartitions++
